@@ -128,6 +128,11 @@ func (x *Exec) exprT(e ast.Expr, st *State, want types.Type) Value {
 			if sc, ok := v.(Sc); ok {
 				if rs, ok2 := res.(Sc); ok2 && rs.T.S.Eq(sc.T.S) {
 					res = Sc{sc.T}
+					// a concrete pointer type: ok is exactly "non-nil and of
+					// that dynamic type" (as in typeSwitch)
+					if _, isPtr := tu.At(0).Type().Underlying().(*types.Pointer); isPtr && sc.T.S.Kind == SInt {
+						st.add(Eq(okT, And(Neq(sc.T, IntC(0)), Eq(App(dyntypeFn, sc.T), typeID(tu.At(0).Type())))))
+					}
 				}
 			}
 			return Tu{[]Value{res, Sc{okT}}}
@@ -287,6 +292,17 @@ func (x *Exec) newError(st *State, wrapped *Term) *Term {
 
 func (x *Exec) arith(st *State, op token.Token, a, b *Term, ii, yii intInfo, at ast.Node) *Term {
 	r := x.ar.binop(op, a, b, ii, yii)
+	if r.Err != nil && op == token.AND && !x.ar.BV {
+		// a & b with no constant operand (int theory): an unknown value of the
+		// type that is bounded by each non-negative operand -- in two's
+		// complement, 0 <= a & b <= b whenever b >= 0, whatever a is
+		x.abstr["arith: & with non-constant mask (result bounded by its non-negative operands only)"] = true
+		t := x.freshTerm("and", x.ar.sortOfInt(ii))
+		st.add(x.ar.rangeFact(t, ii))
+		st.add(Implies(IGe(b, IntC(0)), And(IGe(t, IntC(0)), ILe(t, b))))
+		st.add(Implies(IGe(a, IntC(0)), And(IGe(t, IntC(0)), ILe(t, a))))
+		return t
+	}
 	if r.Err != nil {
 		if x.coarse {
 			x.abstr["arith: "+r.Err.Error()] = true
